@@ -1020,16 +1020,10 @@ static void runMem(uint64_t caseSeed, size_t id, std::ostream &o) {
 			// abstract addresses: 0..3 undefined bits per port
 			std::vector<std::string> abs;
 			for (size_t p = 0; p < nports; p++) {
-				std::string a;
-				for (int tries = 0; tries < 20; tries++) {
-					a = b.genBits(aw, 9);
-					size_t nu = std::min<size_t>(rng.below(4), aw);
-					for (size_t k = 0; k < nu; k++) a[rng.below(a.size())] = 'x';
-					// EXACT + undefined address bits + smallest candidate beyond the memory: Node_MemPort.cpp:230 asserts. Kept rare.
-					std::string lo = a; for (auto &c : lo) if (c == 'x') c = '0';
-					bool throws = exact && lo != a && std::stoull(lo, nullptr, 2) >= depth;
-					if (!throws || rng.chance(1, 40)) break;
-				}
+				// non-power-of-two depths: candidate sets partly or entirely beyond the memory occur at their natural frequency
+				std::string a = b.genBits(aw, 9);
+				size_t nu = std::min<size_t>(rng.below(4), aw);
+				for (size_t k = 0; k < nu; k++) a[rng.below(a.size())] = 'x';
 				abs.push_back(a);
 			}
 			// all concretisations of port 0's address combined with sampled ones of the other ports; run 0 is the abstract one
